@@ -30,6 +30,18 @@ class Atom:
                         x_ = x_[1]
                     if x_[0] == "bin" and x_[1] == "Sub" and y[0] == "const" and y[1] == 0 and not isinstance(y[1], bool):
                         return (t[1], x_[2], x_[3])
+                # (a / b) * b == a is a % b == 0 (the product cannot overflow: |(a / b) * b| <= |a|)
+                for (x, y) in ((t[2], t[3]), (t[3], t[2])):
+                    x_ = x
+                    while x_[0] == "cast":
+                        x_ = x_[1]
+                    if x_[0] == "bin" and x_[1] == "Mul":
+                        for (q, d) in ((x_[2], x_[3]), (x_[3], x_[2])):
+                            q_ = q
+                            while q_[0] == "cast":
+                                q_ = q_[1]
+                            if q_[0] == "bin" and q_[1] == "Div" and q_[3] == d and q_[2] == y:
+                                return (t[1], ("bin", "Rem", y, d), ("const", 0, None, None))
             return (t[1], t[2], t[3])
         if t[0] == "call":
             last = t[1].rsplit("::", 1)[-1]
